@@ -116,7 +116,11 @@ def run_mock(pid, tier, t0, plans, assumptions, rule, level_note=None, plan_key=
             if k == "twin" and v:
                 args += ["--twin"]
         workers = 8
-        r, res, rc = vf.run_tlc_replay(inst, name, args, workers=workers, timeout=3000 if tier == "thorough" else 900, simulate=sim)
+        vh_path = None
+        if hopts.get("nostd"):
+            vf.build_harness(nostd=True)
+            vh_path = vf.VH_NOSTD
+        r, res, rc = vf.run_tlc_replay(inst, name, args, workers=workers, timeout=3000 if tier == "thorough" else 900, simulate=sim, vh_path=vh_path)
         if r.get("violated"):
             # the specification itself violates one of its property-shaped invariants: the model is wrong
             raise ToolError("specification instance %s violates invariant %s (model error, not a verdict about the code)" % (name, r["violated"]))
@@ -133,7 +137,7 @@ def run_mock(pid, tier, t0, plans, assumptions, rule, level_note=None, plan_key=
         cov["distinct_nontrivial"] += st.get("with_calls", 0)
         cov["instances"].append({"name": name, "mode": "simulate" if sim else "exhaustive", "tlc_distinct_states": r["distinct"],
                                  "tlc_states_generated": r["generated"], "tlc_wall_s": r["wall_s"], "replay": st,
-                                 "routed_over_clones": res.get("routed_over_clones", 0),
+                                 "routed_over_clones": res.get("routed_over_clones", 0), "unimock_build": "no_std + critical-section + spin-lock" if hopts.get("nostd") else "std",
                                  "constants": {k: v for k, v in inst["constants"].items() if k in ("LeafFam", "MaxLeaves", "MaxCalls", "Arg", "ScriptFam", "StrictFam", "Vias", "UpFam")}})
         if len(cov["samples"]) < 3:
             cov["samples"] += res.get("samples", [])[:2]
@@ -282,17 +286,24 @@ CONC_INV = ["DistinctPositions", "ResponsesArePositions", "SingleDelivery", "All
 TLC_CP = "/opt/veriftools/tla/tla2tools.jar:/opt/veriftools/tla/CommunityModules-deps.jar"
 
 
-def validate_trace(trace_path, name):
-    """Run ConcTrace.tla on an ndjson trace. Returns (ok, unmatched_index, states)."""
+TRACE_CFG = {
+    "ConcTrace": 'SPECIFICATION TSpec\nCONSTANTS\n  Thread <- T8\n  CounterImpl = "fetch_add"\nCONSTRAINT Track\nINVARIANT TraceSingleUse\nPOSTCONDITION Accepted\nCHECK_DEADLOCK FALSE\n',
+    "ChainTrace": 'SPECIFICATION TSpec\nCONSTANTS\n  Thread <- T8\n  PushImpl = "try_insert"\n  MaxCells = 16\nCONSTRAINT Track\nINVARIANTS RefsOwn NothingLost DistinctCells\nPOSTCONDITION Accepted\nCHECK_DEADLOCK FALSE\n',
+    "MockTrace": 'SPECIFICATION TSpec\nCONSTANTS\n  Method = {"r0", "r1", "r2", "d0", "d1", "t0", "b0"}\n  Arg = {0, 1, 2, 3}\n  HasDefault <- tHasDefault\n  HasUnmock <- tHasUnmock\n  PartialByDef <- tPartialByDef\n  RetOwned <- tRetOwned\n  Required <- tRequired\n  HasMutexApi = TRUE\n  HasStd = TRUE\n  MaxCalls = 100000\nCONSTRAINT Track\nINVARIANTS FirstMatchOnly CountIsSelections KthResponse SingleDelivery OrderedPrefix SlotsOnlyByOrdered FallbackTable NoFabrication ErrorsRemembered VerdictIff\nPOSTCONDITION Accepted\nCHECK_DEADLOCK FALSE\n',
+}
+
+
+def validate_trace(trace_path, name, module="ConcTrace"):
+    """Run a trace specification on an ndjson trace. Returns (ok, unmatched_index, states)."""
     import subprocess, shutil
     d = os.path.join(vf.WORK, "tlc", name)
     shutil.rmtree(d, ignore_errors=True)
     os.makedirs(d, exist_ok=True)
     cfgp = os.path.join(d, "trace.cfg")
-    open(cfgp, "w").write('SPECIFICATION TSpec\nCONSTANTS\n  Thread <- T8\n  CounterImpl = "fetch_add"\nCONSTRAINT Track\nINVARIANT TraceSingleUse\nPOSTCONDITION Accepted\nCHECK_DEADLOCK FALSE\n')
+    open(cfgp, "w").write(TRACE_CFG[module])
     env = dict(os.environ); env["TRACE"] = trace_path
     cmd = ["java", "-XX:+UseParallelGC", "-Xss1g", "-Xmx6g", "-cp", TLC_CP, "tlc2.TLC", "-workers", "1", "-metadir", os.path.join(d, "states"),
-           "-cleanup", "-noGenerateSpecTE", "-config", cfgp, os.path.join(vf.TLA, "ConcTrace.tla")]
+           "-cleanup", "-noGenerateSpecTE", "-config", cfgp, os.path.join(vf.TLA, module + ".tla")]
     try:
         p = subprocess.run(cmd, cwd=vf.TLA, env=env, capture_output=True, text=True, timeout=1500)
     except subprocess.TimeoutExpired:
@@ -305,13 +316,18 @@ def validate_trace(trace_path, name):
     m = re.search(r'<<"UNMATCHED", (\d+),', out)
     if m:
         return False, int(m.group(1)), st
+    m2 = re.search(r"Invariant (\S+) is violated", out)
+    if m2:
+        # an invariant of the specification fails on a state of the trace: report the trace position reached
+        m3 = re.findall(r"l = (\d+)", out)
+        return False, int(m3[-1]) if m3 else 1, st
     if "Model checking completed. No error has been found." in out:
         return True, None, st
     log(out[-3000:])
     raise ToolError("trace validation failed to run (%s)" % name)
 
 
-def validate_all(trace_path, name, max_viol=5):
+def validate_all(trace_path, name, max_viol=5, module="ConcTrace", boundary='"reset"'):
     """Validate a concatenation of executions; on a rejection record it and go on with the rest.
     Returns (n_events, list of rejected executions [{x, events, unmatched}], states)."""
     lines = open(trace_path).read().splitlines()
@@ -321,18 +337,19 @@ def validate_all(trace_path, name, max_viol=5):
     cur = trace_path
     round_ = 0
     while True:
-        ok, idx, st = validate_trace(cur, "%s_r%d" % (name, round_))
+        ok, idx, st = validate_trace(cur, "%s_r%d" % (name, round_), module)
         states += st["distinct"]
         if ok:
             break
         # idx is 1-based within the current file
         gidx = start + idx - 1
         # the execution containing that line
+        gidx = min(gidx, len(lines) - 1)
         a = gidx
-        while a > 0 and '"reset"' not in lines[a]:
+        while a > 0 and boundary not in lines[a]:
             a -= 1
         b = gidx + 1
-        while b < len(lines) and '"reset"' not in lines[b]:
+        while b < len(lines) and boundary not in lines[b]:
             b += 1
         rejected.append({"events": [json.loads(x) for x in lines[a:b]], "unmatched_event": json.loads(lines[gidx]), "position_in_execution": gidx - a})
         if len(rejected) >= max_viol or b >= len(lines):
@@ -397,6 +414,90 @@ def run_conc(pid, tier, t0, rule, assumptions, plan_key=None):
              "beh": {"kind": "conc-trace", "mode": r["mode"], "events": r["events"]}, "in_scope": True} for r in all_rej]
     cov["checker_cmd"] = "tlc MC_Conc.tla; harness vh conc; tlc ConcTrace.tla (POSTCONDITION Accepted)"
     return finish(pid, tier, LEVEL_MC, cov, assumptions, t0, divs)
+
+
+CHAIN_PROGS = {"quick": {"dfs": [[["p"], ["p"]], [["p", "p"], ["p", "p"]], [["p"], ["p"], ["p"]]], "free": [[["p", "p", "p"], ["p", "p", "p"], ["p", "p"], ["p", "p"]]], "free_runs": 300,
+                         "mc": [("T2", 2), ("T3", 1)]},
+               "thorough": {"dfs": [[["p"], ["p"]], [["p", "p"], ["p", "p"]], [["p"], ["p"], ["p"]], [["p", "p", "p"], ["p", "p", "p"]], [["p", "p"], ["p"], ["p", "p"]]],
+                            "random": [[["p", "p", "p"], ["p", "p", "p"], ["p", "p", "p"], ["p", "p"]]], "runs": 3000,
+                            "free": [[["p", "p", "p"]] * 8], "free_runs": 5000, "mc": [("T2", 2), ("T3", 1), ("T3", 2), ("T2", 3)]}}
+
+
+def run_chain_conc(pid, tier, t0):
+    """C13, concurrent half: make_ref through one shared instance from several threads."""
+    import subprocess
+    plan = CHAIN_PROGS[tier]
+    cov = {"states": 0, "transitions": 0, "traces_validated_against_impl": 0, "samples": [], "instances": [], "evaluations": 0, "distinct_nontrivial": 0, "exhaustive": False,
+           "rule": "(a) TLC: every interleaving of the try_insert steps of 2-3 pushers satisfies RefsOwn / NothingLost / DistinctCells / ChainLinear (and the find-then-fill variant violates them); (b) the real value chain under the baton scheduler (yield point before every try_insert): all schedules of small programs, random schedules, free-running threads; every execution (push / got / reread / drop-counter events) validated by ChainTrace.tla"}
+    for (thr, pushes) in plan["mc"]:
+        inst = {"module": "MC_Chain", "spec": "MSpec", "constants": {"Thread": "<-" + thr, "PushImpl": '"try_insert"', "MaxCells": 10, "PushesPer": pushes},
+                "invariants": ["RefsOwn", "NothingLost", "DistinctCells", "ChainLinear"]}
+        r = vf.run_tlc(inst, "chain_%s_%d" % (thr, pushes), workers=4, timeout=900)
+        if r["violated"]:
+            raise ToolError("Chain.tla violates %s (model error)" % r["violated"])
+        cov["states"] += r["distinct"]; cov["transitions"] += r["generated"]
+        cov["instances"].append({"name": "MC_Chain/%s x %d pushes" % (thr, pushes), "tlc_distinct_states": r["distinct"]})
+    sens = {"module": "MC_Chain", "spec": "MSpec", "constants": {"Thread": "<-T2", "PushImpl": '"find_then_fill"', "MaxCells": 10, "PushesPer": 1},
+            "invariants": ["RefsOwn", "NothingLost", "DistinctCells", "ChainLinear"]}
+    rs = vf.run_tlc(sens, "chain_sens", workers=2, timeout=300)
+    if not rs["violated"]:
+        raise ToolError("sensitivity run (find-then-fill push) violates nothing: the chain invariants are vacuous")
+    cov["sensitivity"] = {"PushImpl=find_then_fill": rs["violated"]}
+    divs = []
+    for mode in ("dfs", "random", "free"):
+        progs = plan.get(mode)
+        if not progs:
+            continue
+        d = os.path.join(vf.WORK, "chain_%s" % mode)
+        os.makedirs(d, exist_ok=True)
+        spec = {"kind": "chain", "mode": mode, "programs": progs, "max_schedules": 60000 if tier == "thorough" else 8000,
+                "runs": plan.get("free_runs" if mode == "free" else "runs", 200), "seed": vf.seed()}
+        json.dump(spec, open(os.path.join(d, "spec.json"), "w"))
+        tr = os.path.join(d, "trace.ndjson")
+        p = subprocess.run([vf.VH, "conc", os.path.join(d, "spec.json"), tr, os.path.join(d, "summary.json")], cwd=vf.VERIF, stderr=subprocess.DEVNULL, timeout=3000)
+        if p.returncode != 0:
+            # a panic inside make_ref under the mutant kills a worker thread; the harness reports exit 101
+            if p.returncode < 0 or p.returncode == 101:
+                divs.append({"what": "concurrent make_ref crashed the harness (exit %s)" % p.returncode, "step": 0, "expected": "every push returns a reference to its own value",
+                             "observed": "crash", "beh": {"kind": "chain-trace", "mode": mode, "events": []}, "in_scope": True})
+                continue
+            raise ToolError("scheduler harness failed in chain mode %s (exit %s)" % (mode, p.returncode))
+        summ = json.load(open(os.path.join(d, "summary.json")))
+        n_events, rej, st = validate_all(tr, "chaintrace_%s" % mode, module="ChainTrace")
+        cov["states"] += st; cov["transitions"] += st
+        cov["traces_validated_against_impl"] += summ["executions"]; cov["evaluations"] += summ["executions"]
+        cov["distinct_nontrivial"] += summ["executions"] if mode == "dfs" else 0
+        cov["instances"].append({"name": "scheduler/" + mode, "executions": summ["executions"], "events": n_events, "yield_points_hit": summ["yield_points_hit"], "rejected": len(rej)})
+        for r_ in rej:
+            divs.append({"what": "concurrent make_ref execution not explainable by Chain.tla at event %s" % json.dumps(r_["unmatched_event"]), "step": r_["position_in_execution"],
+                         "expected": "every reference designates its own value; lent values destroyed once, after the instance", "observed": r_["unmatched_event"],
+                         "beh": {"kind": "chain-trace", "mode": mode, "events": r_["events"]}, "in_scope": True})
+        if not cov["samples"]:
+            cov["samples"].append([json.loads(x) for x in open(tr).read().splitlines()[:10]])
+    cov["checker_cmd"] = "tlc MC_Chain.tla; harness vh conc (kind=chain); tlc ChainTrace.tla"
+    return finish(pid, tier, LEVEL_MC, cov, CONC_ASSUME, t0, divs)
+
+
+def run_mock_trace(pid, tier, t0, mocks=None):
+    """Random larger configurations / longer histories on the real mock, validated by MockTrace.tla."""
+    import subprocess
+    mocks = mocks or (150 if tier == "quick" else 4000)
+    d = os.path.join(vf.WORK, "mocktrace_" + pid.lower())
+    os.makedirs(d, exist_ok=True)
+    tr = os.path.join(d, "trace.ndjson")
+    p = subprocess.run([vf.VH, "drive-mock", tr, "--seed", str(vf.seed() * 131 + int(pid[1:])), "--mocks", str(mocks), "--calls", "40" if tier == "thorough" else "25"],
+                       cwd=vf.VERIF, capture_output=True, text=True, timeout=3000)
+    if p.returncode != 0:
+        raise ToolError("random driver failed: %s" % p.stderr[-500:])
+    n_events, rej, st = validate_all(tr, "mocktrace_" + pid.lower(), module="MockTrace", boundary='"ev":"new"')
+    divs = [{"what": "observed execution of the real mock is not a behaviour of Mock.tla at event %s" % json.dumps(r_["unmatched_event"])[:400], "step": r_["position_in_execution"],
+             "expected": "a step of tla/Mock.tla with exactly this observable (all ten invariants evaluated on every state)", "observed": r_["unmatched_event"],
+             "beh": {"kind": "mock-trace", "events": r_["events"]}, "in_scope": True} for r_ in rej]
+    cov = {"states": st, "transitions": st, "traces_validated_against_impl": mocks, "evaluations": n_events, "distinct_nontrivial": mocks, "exhaustive": False,
+           "samples": [[json.loads(x) for x in open(tr).read().splitlines()[:3]]],
+           "rule": "seeded random configurations (1-6 clauses over 7 methods, |Arg| = 4, chains of up to 3 segments of every response kind, stubs with 0-3 patterns, occasional mode conflicts) and histories of up to 40 calls with scripts of nested calls and user panics, run on the real mock; every logged event must be a step of Mock.tla with the logged outcome, user-code log and final verdict (MockTrace.tla, all invariants on every state)",
+           "instances": [{"name": "MockTrace", "mocks": mocks, "events": n_events, "rejected": len(rej)}]}
+    return finish(pid, tier, LEVEL_MC, cov, COMMON_ASSUME, t0, divs)
 
 
 def shapes_inst(fam, maxlen):
@@ -797,6 +898,12 @@ def run_property(pid, tier, t0):
         return composite(pid, tier, t0, [("sequential histories (Mock.tla replay)", mock), ("owned leaves inside composites (Shapes.tla cases)", lambda: run_c17(pid, tier, t0)),
                                          ("racing requesters (Conc.tla, scheduler, trace validation)", conc),
                                          ("builder chains that must not type-check (Builder.tla TypeChecks vs rustc)", lambda: run_c14(pid, tier, t0, only_chains=True))])
+    if pid == "C13":
+        return composite(pid, tier, t0, [("sequential value chains, lending, teardown (Lifecycle.tla replay)", life),
+                                         ("concurrent make_ref through a shared instance (Chain.tla, scheduler, trace validation)", lambda: run_chain_conc(pid, tier, t0))])
+    if pid in ("C01", "C02", "C03", "C04"):
+        return composite(pid, tier, t0, [("enumerated behaviours (Mock.tla, replay)", mock),
+                                         ("random larger configurations (trace validation, MockTrace.tla)", lambda: run_mock_trace(pid, tier, t0))])
     if pid == "C17":
         return run_c17(pid, tier, t0)
     if pid == "C14":
